@@ -63,7 +63,8 @@ Definition dom (s v : Z) : Prop := In s all_suites /\ In v all_versions /\ negot
 Lemma classification_lifted : forall s v, dom s v ->
   exists m r, meaning_of s = Some m /\ row_of s = Some r /\
     cipher_settings_ok m r = true /\ mac_settings_ok m r = true /\ prf_ok m r v = true /\
-    chk_dispatch s = true.
+    labels_ok m r v = true /\ exporter_ok m r v = true /\ deprecated_ok m r v = true /\
+    keyupdate_ok m r v = true /\ chk_dispatch s = true.
 Proof.
   intros s v [Hs [Hv Hn]].
   pose proof (forall_negotiable_spec _ classification_all s v Hs Hv Hn) as H.
@@ -71,7 +72,7 @@ Proof.
   unfold chk_classification in H.
   destruct (meaning_of s) as [m|]; [|discriminate].
   destruct (row_of s) as [r|]; [|discriminate].
-  apply andb_true_iff in H. destruct H as [H H3]. apply andb_true_iff in H. destruct H as [H1 H2].
+  repeat (let X := fresh "X" in apply andb_true_iff in H; destruct H as [H X]).
   exists m, r. repeat split; assumption.
 Qed.
 
@@ -136,7 +137,8 @@ Lemma L_classification : forall s v,
   In s all_suites -> In v all_versions -> negotiable s v = true ->
   exists m r, meaning_of s = Some m /\ row_of s = Some r /\
     cipher_settings_ok m r = true /\ mac_settings_ok m r = true /\ prf_ok m r v = true /\
-    chk_dispatch s = true.
+    labels_ok m r v = true /\ exporter_ok m r v = true /\ deprecated_ok m r v = true /\
+    keyupdate_ok m r v = true /\ chk_dispatch s = true.
 Proof. intros s v A B C. apply classification_lifted. repeat split; assumption. Qed.
 
 Lemma L_example : In 49199 all_suites /\ In 3 all_versions /\ negotiable 49199 3 = true.
